@@ -114,7 +114,7 @@ inductive Item where
   /-- `corruption` (bad CRC digits, CRC mismatch, short line, …): poisons the iterator -/
   | corrupt
   /-- `corruption` from the non-ASCII check: poisons, as repaired by
-      fixes/mani-nonascii-poisons.diff (as found it did not: `iterateAsFound`) -/
+      /repo commit ef4f524 (as found it did not: `iterateAsFound`) -/
   | notAscii
   /-- `BufRead::lines` failed (the line is not UTF-8): `io-error`, poisons -/
   | ioError
@@ -133,7 +133,7 @@ def lineOf (raw : List Nat) (terminated : Bool) : List Nat := if terminated then
 variable (crc : List Nat → Nat)
 
 /-- `ManifestIterator`: every item a caller sees until `None`.  Every error poisons the iterator,
-    the non-ASCII check included (as repaired by fixes/mani-nonascii-poisons.diff). -/
+    the non-ASCII check included (as repaired by /repo commit ef4f524). -/
 def iterate : Nat → List Nat → Edit → List Item
   | 0, _, _ => []
   | _ + 1, [], _ => []
